@@ -168,6 +168,9 @@ def Manager.parentSlotLoop (g : Manager) (level slotIndex : Nat) : Nat â†’ Nat â
       match g.parentRung offset level with
       | none => .error (.keyError "_parent_rung")
       | some (delta, ri) =>
+        -- `num_bracket_offsets - rung_index <= 0`: the Python loop does not advance (it hangs or
+        -- walks upwards); outside the model, the harness never asks this
+        if delta = 0 then .error (.other "bracket_delta <= 0") else
         if id < delta then .error (.other "negative bracket index") else
         match g.brackets[id - delta]? with
         | none => .error (.other "IndexError")
